@@ -567,7 +567,11 @@ class ReadOnlyScenario(BaseScenario):
                 ok = False
                 sim.probe("copy_out_raised:" + type(err).__name__)
             del ent
-            other.close()
+            try:
+                other.close()
+            except Exception as err:  # pylint: disable=broad-except   (the target's trouble is C12's business, not the read-only file's)
+                ok = False
+                sim.probe("copy_out_target_close_raised:" + type(err).__name__)
             sim.probe("copy_out")
             return "ok" if ok else "raised"
         if kind == "copy_in":
